@@ -124,7 +124,7 @@ func runC09(c *Ctx) {
 		}
 	}
 	// (b) socket writers: the write function, or the one helper it calls with its line to do the socket write
-	leaf, via := c.writerLeaf(writeFn)
+	leaf, _ := c.writerLeaf(writeFn)
 	if leaf == nil {
 		leaf = writeFn
 	}
@@ -182,55 +182,7 @@ func runC09(c *Ctx) {
 	}
 	r.Exactly("R3", "WriteString sites on the connection writer", nW, 1)
 	if writeFn != nil {
-		// on the success path: WriteString then Flush, each exactly once
-		var ws, fl []ssa.Instruction
-		funcInstrs(leaf, func(in ssa.Instruction) {
-			switch calleeName(callOf(in)) {
-			case "(*bufio.Writer).WriteString":
-				ws = append(ws, in)
-			case "(*bufio.Writer).Flush":
-				fl = append(fl, in)
-			}
-		})
-		ok := len(ws) == 1 && len(fl) == 1 && instrDominates(ws[0], fl[0])
-		why := fmt.Sprintf("%d WriteString, %d Flush", len(ws), len(fl))
-		succeedsAfter := func(fn *ssa.Function, step ssa.Instruction) {
-			// every return that returns a nil error is dominated by the step; returns not dominated return a non-nil error
-			funcInstrs(fn, func(in ssa.Instruction) {
-				rt, isRet := in.(*ssa.Return)
-				if !isRet || len(rt.Results) != 1 {
-					return
-				}
-				if !instrDominates(step, rt) && isNilConst(retVal(rt, 0)) {
-					ok, why = false, "success return at "+c.InstrPos(rt)+" is not preceded by "+c.InstrPos(step)
-				}
-			})
-		}
-		if ok {
-			succeedsAfter(leaf, fl[0])
-			if via != nil {
-				// the write function succeeds only after the helper call, and only when it reported no error
-				succeedsAfter(writeFn, via)
-				funcInstrs(writeFn, func(in ssa.Instruction) {
-					rt, isRet := in.(*ssa.Return)
-					if !isRet || len(rt.Results) != 1 || !isNilConst(retVal(rt, 0)) {
-						return
-					}
-					nilEdge := false
-					for _, cd := range CondsAt(rt.Block()) {
-						cd = unwrapNot(cd)
-						if bo, isB := cd.V.(*ssa.BinOp); isB && (bo.Op == token.EQL || bo.Op == token.NEQ) && (bo.X == ssa.Value(via) || bo.Y == ssa.Value(via)) && (isNilConst(bo.X) || isNilConst(bo.Y)) {
-							nilEdge = (bo.Op == token.EQL) == cd.True
-						}
-					}
-					if !nilEdge {
-						ok, why = false, "success return at "+c.InstrPos(rt)+" does not depend on the socket-write helper having succeeded"
-					}
-				})
-			}
-		}
-		r.Add("R3", "write-then-flush:"+c.FuncKey(writeFn), c.Pos(writeFn.Pos()), c.FuncKey(writeFn), "write: one WriteString then one Flush before every success return", ok, why)
-		r.Funcs[c.FuncKey(writeFn)] = true
+		c.writeCompleteRule("R3", writeFn)
 	}
 
 	// R3 (c): text is never re-interpreted as a printf format on its way to the wire
@@ -318,6 +270,66 @@ func (c *Ctx) socketLifecycleHelper(cc *ssa.CallCommon) bool {
 		})
 	}
 	return ok
+}
+
+// writeCompleteRule: on every success return of the write function the line
+// has been written to the connection writer (one WriteString, outside loops)
+// and flushed, in the write function itself or in its one socket-write helper.
+func (c *Ctx) writeCompleteRule(rule string, writeFn *ssa.Function) {
+	r := c.R
+	leaf, via := c.writerLeaf(writeFn)
+	if leaf == nil {
+		leaf = writeFn
+	}
+	// on the success path: WriteString then Flush, each exactly once
+	var ws, fl []ssa.Instruction
+	funcInstrs(leaf, func(in ssa.Instruction) {
+		switch calleeName(callOf(in)) {
+		case "(*bufio.Writer).WriteString":
+			ws = append(ws, in)
+		case "(*bufio.Writer).Flush":
+			fl = append(fl, in)
+		}
+	})
+	ok := len(ws) == 1 && len(fl) == 1 && instrDominates(ws[0], fl[0])
+	why := fmt.Sprintf("%d WriteString, %d Flush", len(ws), len(fl))
+	succeedsAfter := func(fn *ssa.Function, step ssa.Instruction) {
+		// every return that returns a nil error is dominated by the step; returns not dominated return a non-nil error
+		funcInstrs(fn, func(in ssa.Instruction) {
+			rt, isRet := in.(*ssa.Return)
+			if !isRet || len(rt.Results) != 1 {
+				return
+			}
+			if !instrDominates(step, rt) && isNilConst(retVal(rt, 0)) {
+				ok, why = false, "success return at "+c.InstrPos(rt)+" is not preceded by "+c.InstrPos(step)
+			}
+		})
+	}
+	if ok {
+		succeedsAfter(leaf, fl[0])
+		if via != nil {
+			// the write function succeeds only after the helper call, and only when it reported no error
+			succeedsAfter(writeFn, via)
+			funcInstrs(writeFn, func(in ssa.Instruction) {
+				rt, isRet := in.(*ssa.Return)
+				if !isRet || len(rt.Results) != 1 || !isNilConst(retVal(rt, 0)) {
+					return
+				}
+				nilEdge := false
+				for _, cd := range CondsAt(rt.Block()) {
+					cd = unwrapNot(cd)
+					if bo, isB := cd.V.(*ssa.BinOp); isB && (bo.Op == token.EQL || bo.Op == token.NEQ) && (bo.X == ssa.Value(via) || bo.Y == ssa.Value(via)) && (isNilConst(bo.X) || isNilConst(bo.Y)) {
+						nilEdge = (bo.Op == token.EQL) == cd.True
+					}
+				}
+				if !nilEdge {
+					ok, why = false, "success return at "+c.InstrPos(rt)+" does not depend on the socket-write helper having succeeded"
+				}
+			})
+		}
+	}
+	r.Add(rule, "write-then-flush:"+c.FuncKey(writeFn), c.Pos(writeFn.Pos()), c.FuncKey(writeFn), "write: one WriteString then one Flush before every success return", ok, why)
+	r.Funcs[c.FuncKey(writeFn)] = true
 }
 
 // writeErrorsRule: the write function reports an error only when a socket
@@ -753,6 +765,8 @@ func runC14(c *Ctx) {
 	r.Rule("R1", "every access to a field of stateTracker, nick or channel holds stateTracker.mu (fresh objects under construction exempt); in every exported tracker method no Lock follows an Unlock (one critical section); the mutex is never acquired while already held")
 	r.Rule("R2", "every pointer or map returned by an exported method of the tracker is freshly allocated, does not escape into tracker state, and recursively every reference-typed field / map value of it is too")
 	r.Rule("R3", "no reference-typed parameter of an exported tracker method is stored into tracker state")
+	r.Rule("R4", "the mutex locked is the tracker's own, never a copy: no function of package state receives or copies by value a struct that contains a sync.Mutex or sync.RWMutex (a value receiver on the tracker would lock a private copy of the mutex and exclude nobody)")
+	c.noLockCopiesRule("R4", c.stateFuncs())
 	funcs := c.stateFuncs()
 	internal := map[*types.Named]bool{}
 	for _, n := range []string{"stateTracker", "nick", "channel"} {
@@ -1064,4 +1078,55 @@ func (c *Ctx) formatHygieneRule(rule string) {
 		}
 	}
 	r.Floor(rule, "printf-style calls in the command path", n, 1)
+}
+
+// containsLock: t holds a sync.Mutex / sync.RWMutex by value (directly, in an
+// embedded or nested struct, or in an array).
+func containsLock(t types.Type, depth int) bool {
+	if depth > 6 {
+		return false
+	}
+	if nt, ok := t.(*types.Named); ok {
+		if o := nt.Obj(); o != nil && o.Pkg() != nil && o.Pkg().Path() == "sync" && (o.Name() == "Mutex" || o.Name() == "RWMutex") {
+			return true
+		}
+	}
+	switch u := t.Underlying().(type) {
+	case *types.Struct:
+		for i := 0; i < u.NumFields(); i++ {
+			if containsLock(u.Field(i).Type(), depth+1) {
+				return true
+			}
+		}
+	case *types.Array:
+		return containsLock(u.Elem(), depth+1)
+	}
+	return false
+}
+
+// noLockCopiesRule: no parameter, receiver or loaded value of a lock-holding
+// struct type in funcs.
+func (c *Ctx) noLockCopiesRule(rule string, funcs []*ssa.Function) {
+	r := c.R
+	n, nBad := 0, 0
+	for _, fn := range funcs {
+		if fn.Synthetic != "" {
+			continue
+		}
+		n++
+		for _, p := range fn.Params {
+			if containsLock(p.Type(), 0) {
+				nBad++
+				r.Add(rule, "lock-copy:"+c.FuncKey(fn)+":"+p.Name(), c.Pos(fn.Pos()), c.FuncKey(fn), "no struct holding a mutex is passed by value", false, "parameter "+p.Name()+" of type "+typeString(p.Type())+" is a copy: locking its mutex excludes nobody")
+			}
+		}
+		funcInstrs(fn, func(in ssa.Instruction) {
+			if u, ok := in.(*ssa.UnOp); ok && u.Op == token.MUL && containsLock(u.Type(), 0) {
+				nBad++
+				r.Add(rule, "lock-copy:"+c.FuncKey(fn)+":load", c.InstrPos(u), c.FuncKey(fn), "no struct holding a mutex is copied", false, "value of type "+typeString(u.Type())+" is copied")
+			}
+		})
+	}
+	r.Add(rule, "no-lock-copies", "-", "", fmt.Sprintf("none of the %d functions examined receives or copies a lock-holding struct by value", n), nBad == 0, fmt.Sprintf("%d copies", nBad))
+	r.Floor(rule, "functions examined for lock copies", n, 40)
 }
